@@ -10,13 +10,13 @@ SPEC = dict(
     rule='abstract configurations generated from the seed and RENDERED TO YAML TEXT, taken through viper -> mapstructure hooks -> '
          'configuration.Validate: (a) documented forms only (all sensor/fan/curve kinds, every spelling of controlAlgorithm, both step '
          'spellings, nested function curves in shuffled definition order); (b) one of 52 planted deviations per case (every validator rule, '
-         'the four D15 shapes, permission failures), 8x each, then two at once; every subset of the three backend blocks (none, each single, each pair, all three) for a sensor, a curve and a fan entry; every way three sensors are used (by a linear curve, only by a pid curve, only by a pid curve nested in function curves, not at all); (c) curve graphs with 2..8 nodes: random DAGs, an embedded '
+         'the four D15 shapes, permission failures), 8x each, then two at once; every subset of the three backend blocks (none, each single, each pair, all three) for a sensor, a curve and a fan entry; every way three sensors are used (by a linear curve, only by a pid curve, only by a pid curve nested in function curves, not at all); cross-kind references: kind-neutral ids (the SAME text as sensor, curve and/or fan id - legal, the validator keeps kinds apart) and references at all four sites (linear.sensor, pid.sensor, function member, fan.curve) naming an object of the wrong kind, the right kind, both or neither; (c) curve graphs with 2..8 nodes: random DAGs, an embedded '
          'cycle of every length 1..8, dangling references; (d) EVERY digraph incl. self-loops on 1..3 nodes (thorough: ..4). Ids are strings that are pairwise distinct but fall into groups differing only in letter case, surrounding blanks or unusual '
          'trailing characters ("c0", "C0", " c0 ", "c0.\u00e4/#"), member lists repeat ids (also consecutively). Every accepted configuration is handed to a '
          'persistent worker process that loads the same file through the real loader, runs the real Validate on its own CurrentConfig and then - from that '
          'same in-memory configuration - instantiates with the REAL start-up glue internal.InitializeObjects (hwmon.GetChips through the gosensors stand-in on a fixed fake hwmon tree, initializeSensors, initializeCurves, initializeFans) and initializeFanControllers, evaluates every curve under '
          '8 sensor environments (incl. NaN/Inf averages) and runs calculateTargetPwm for every fan; panics are recovered, a stack overflow (endless recursion) '
-         'or an 8 s stall kills the worker and is attributed to the target it had started (stack limit 4 MB; generation stops after 8 such cases, each of '
+         ', a deadlock, any other death of the worker or an 8 s stall is attributed to the target it had started and ends the case (stack limit 4 MB; generation stops after 5 such cases, each of '
          'which is a failing input). Every 40th case and the corpus (about 50 documents per run) also go through the real command line entry '
          '`fan2go config validate -c file` (cmd/root.go, cobra, cmd/config/validate.go) in a child process; exit status and the "Config looks good" / '
          '"Validation failed" line must give the same verdict class. Observation outside C11 (b-startup): a hwmon fan without an RPM input is accepted but its '
